@@ -2,6 +2,9 @@ use crate::report::Args;
 
 pub mod c04;
 pub mod c05;
+pub mod c08;
+#[macro_use]
+pub mod c09;
 #[cfg(feature = "parallel")]
 pub mod c11;
 pub mod c13;
@@ -10,6 +13,7 @@ pub mod c14;
 pub mod c15;
 #[cfg(feature = "parallel")]
 pub mod c16;
+pub mod c17;
 pub mod c18;
 pub mod c19;
 pub mod c20;
@@ -22,6 +26,8 @@ pub fn run(args: &Args) -> i32 {
         "c02" => sched::run(args, "c02", "C02", 2400, 60_000, 8),
         "c03" => sched::run(args, "c03", "C03", 2400, 60_000, 8),
         "c04" => c04::run(args),
+        "c08" => c08::run(args),
+        "c09" => c09::run(args),
         #[cfg(feature = "parallel")]
         "c11" => c11::run(args),
         "c13" => c13::run(args),
@@ -30,6 +36,7 @@ pub fn run(args: &Args) -> i32 {
         "c15" => c15::run(args),
         #[cfg(feature = "parallel")]
         "c16" => c16::run(args),
+        "c17" => c17::run(args),
         "c18" => c18::run(args),
         "c19" => c19::run(args),
         "c20" => c20::run(args),
